@@ -30,9 +30,13 @@ RULE_WALK = (
     "float bits. non-trivial = every route of the case exists, some route has >= 2 edges, and a model unit differs from the "
     "feature unit (distance, time or delay) or a non-zero turn delay is charged; distinct by case")
 RULE_SEARCH = (
-    "the same random configurations; the route(s) come from a real SearchAlgorithm::run_vertex_oriented (Dijkstra, A*, "
-    "KspSingleVia k=2 over Dijkstra, k=3 over A*) between the end vertices of a random walk; every returned route is re-traversed "
-    "by the model (M) and judged by the property (S) from the declared initial state. non-trivial as above")
+    "the same random configurations plus a deterministic two-alternative diamond; the route(s) come from a real SearchAlgorithm "
+    "(Dijkstra, A*, KspSingleVia k=2/4 over Dijkstra, k=3 over A*): run_vertex_oriented between the end vertices of a random walk "
+    "(60%) or run_edge_oriented between its first and last edge (40%, neither equal nor adjacent: every route is framed by the "
+    "zero-cost origin and destination edges); ALL routes of the result are rendered by ONE call of the real TraversalPlugin; "
+    "EVERY returned route is re-traversed by the model on its own edges (M, incl. the zero-cost end edges and its own "
+    "traversal_summary) and judged by the property (S) from the declared initial state: end edges zero cost / unchanged state "
+    "of THIS route, summary = last state of THIS route. non-trivial as above")
 
 
 RULE_APP = (
@@ -50,8 +54,12 @@ RULE_APP = (
     "from the declared initial state (bit for bit, summary and cost from ITS last state). S = the exact-rational judge "
     "TR.judge on the application's numbers (state = closed-form sums, costs = rated weighted increments, summary = state "
     "after the last edge) + route.cost = vehicle rate of the summary values and their sum in feature order. A query without "
-    "a route: an error is expected exactly when a plain search cannot reach the destination. Non-trivial = judged route of "
-    ">= 2 edges with a unit conversion or a charged turn delay")
+    "a route: an error is expected exactly when a plain search cannot reach the destination. One case in three uses "
+    "[algorithm] ksp_single_via with k in 2..4 (responses whose `route` is an ARRAY), one in four an edge-oriented query "
+    "(origin_edge / destination_edge, ids or through the edge map-matching plugin): there EVERY route of the response is re-walked "
+    "(M) and judged (S) on ITS OWN path -- records, total_cost, the zero-cost origin / destination edges with the unchanged state "
+    "of that route, traversal_summary = that route's last state, cost = its rated summary. Non-trivial = judged route of "
+    ">= 2 edges with a unit conversion or a charged turn delay, or a response with >= 2 routes, or an edge-oriented query")
 
 
 def classify(case, i, m, s):
@@ -231,7 +239,7 @@ def run(chk):
         chk.add_stream(r, RULE_WALK)
         vf.compare(chk, r, classify=classify, binpath=binp)
     if only in (None, "search"):
-        r = vf.run_stream(binp, "search", 60 if quick else 1500, chk.seed, os.path.join(chk.outdir, "search"), replay=chk.replay)
+        r = vf.run_stream(binp, "search", 120 if quick else 1500, chk.seed, os.path.join(chk.outdir, "search"), replay=chk.replay)
         chk.add_stream(r, RULE_SEARCH)
         vf.compare(chk, r, classify=classify, binpath=binp)
     if only in (None, "app_sums"):
